@@ -16,14 +16,20 @@ RULE = ("statistical layer: N = 400*k (quick) / 4000*k (thorough) draws of gen_w
         "against the uniform law must not exceed the 1-1e-9 quantile (exact tail via mpmath). trace layer: wrappers on "
         "np.random.choice / get_neighbors_in_bounds / _random_start_coord record every random decision of a draw and a reference "
         "loop-erased-random-walk model replays them (walk starts among unvisited cells, each step uniform over exactly the "
-        "in-bounds neighbours of the model's current cell, returned tree equals the model's tree). "
+        "in-bounds neighbours of the model's current cell, returned tree equals the model's tree). marginal layer: on grids too large "
+        "to enumerate (4x4, 5x5, 3x6, 6x3, 1x6, 7x2, 8x8; thorough also 12x12) every draw must be a spanning tree and each edge's inclusion "
+        "count must lie within 7 standard deviations of N times its effective resistance (Kirchhoff: the inclusion probability under the uniform law). "
         "non-trivial & distinct = distinct (grid, tree) outcomes observed on grids with >= 15 trees")
 ASSUMPTIONS = ["numpy's global RNG is uniform", "a bias below the detectable effect size at the stated N is invisible to the chi-square layer",
                "the trace layer applies while gen_wilson draws through np.random.choice and get_neighbors_in_bounds (otherwise reported as not observed)"]
 NSHARDS = {"quick": 16, "thorough": 16}
 GRIDS_Q = [(2, 2), (2, 3), (3, 2), (2, 4), (4, 2), (3, 3)]
 GRIDS_T = GRIDS_Q + [(3, 4)]
-THRESHOLDS = {"quick": {"c19:draws": 100000, "c19:trace:draws": 500,
+# marginal layer: grids too large to enumerate; (shape, draws quick, draws thorough)
+GRIDS_M = [((4, 4), 16000, 200000), ((5, 5), 16000, 200000), ((3, 6), 12000, 120000), ((6, 3), 12000, 120000), ((1, 6), 2000, 10000),
+           ((7, 2), 8000, 80000), ((8, 8), 4000, 60000), ((12, 12), 0, 20000)]
+Z_MAX = 7.0
+THRESHOLDS = {"quick": {"c19:draws": 100000, "c19:marginal-draws": 60000, "c19:trace:draws": 500,
                         "c19:consumed-stream-blocks": 10}}
 THRESHOLDS["thorough"] = {**THRESHOLDS["quick"], "c19:draws": 1000000}
 ANCHORS = ["maze_dataset.generation.generators:LatticeMazeGenerators.gen_wilson",
@@ -88,7 +94,62 @@ def run(ctx):
                     ctx.nontrivial(R, C, mask)
             if blk == 0 and len(ctx.samples) < 3:
                 ctx.sample(dict(shape=(R, C), block=blk, draws=m, distinct_trees_in_block=len(cnt), most_common=sorted(cnt.items(), key=lambda x: -x[1])[:3]))
+    _marginals(ctx, b)
     _trace(ctx, 60 if ctx.quick else 600)
+
+
+def _marginals(ctx, b):
+    """edge-inclusion frequencies on grids too large to enumerate; judged in finalize() against the effective resistances"""
+    from maze_dataset.generation import generators as G
+
+    gen = G.LatticeMazeGenerators.gen_wilson
+    for (R, C), nq, nt in GRIDS_M:
+        total = nq if ctx.quick else nt
+        slots = ref.lattice_edge_slots(R, C)
+        sl = tuple(np.array(x) for x in zip(*slots))
+        for blk in range(-(-total // BLOCK)):
+            b += 1
+            if not ctx.mine(b):
+                continue
+            np.random.seed(ctx.case_seed("mblk", R, C, blk) % (2**32))
+            if blk % 4 == 1:
+                np.random.rand(int(ctx.case_seed("mconsume", R, C, blk) % 97) + 1)
+            m = min(BLOCK, total - blk * BLOCK)
+            acc = np.zeros(len(slots), dtype=np.int64)
+            done = 0
+            for _ in range(m):
+                cl = None
+                try:
+                    with call_watchdog(ctx, 120, f"C19/gen_wilson {R}x{C}"):
+                        cl = gen(np.array([R, C])).connection_list
+                    if cl is None:
+                        break
+                except Exception as e:  # noqa: BLE001
+                    ctx.violation(f"C19/gen_wilson-raises/{type(e).__name__}", repr(e)[:300], dict(shape=(R, C), block=blk))
+                    break
+                if cl.shape != (2, R, C) or int(cl.sum()) != R * C - 1 or int(cl[sl].sum()) != R * C - 1 or not Graph(cl).connected():
+                    ctx.violation("C19/output-not-a-spanning-tree", f"{R}x{C}: {np.asarray(cl).astype(int).tolist()}", dict(shape=(R, C), block=blk))
+                    continue
+                acc += cl[sl]
+                done += 1
+            ctx.ev(done); ctx.tally("c19:marginal-draws", done); ctx.tally(f"c19:mN:{R}x{C}", done)
+            for i, v in enumerate(acc):
+                ctx.tally(f"c19:m:{R}x{C}:{i}", int(v))
+
+
+def edge_probabilities(R, C):
+    """P(edge in a uniform spanning tree) = effective resistance between its ends (Kirchhoff); Laplacian pseudo-inverse"""
+    n = R * C
+    L = np.zeros((n, n))
+    slots = ref.lattice_edge_slots(R, C)
+    ends = []
+    for d, r, c in slots:
+        a = r * C + c
+        bb = (r + 1) * C + c if d == 0 else r * C + c + 1
+        ends.append((a, bb))
+        L[a, a] += 1; L[bb, bb] += 1; L[a, bb] -= 1; L[bb, a] -= 1
+    P = np.linalg.pinv(L)
+    return slots, [float(P[a, a] + P[bb, bb] - 2 * P[a, bb]) for a, bb in ends]
 
 
 def _trace(ctx, n_per_shard):
@@ -263,12 +324,44 @@ def finalize(m, tier, seed):
             viol.append(dict(mechanism="C19/frequencies-not-uniform", detail=f"{shp}: chi2={chi2:.1f} df={df} p={pval:.3e} over {N} draws; "
                              f"expected {exp:.1f} per tree, extremes {[(t, counts.get(t, 0)) for t in worst]}", case=dict(shape=shp, stats=stats[shp])))
     cov["chi_square"] = stats
+    # marginal layer
+    mstats = {}
+    for (R, C), nq, nt in GRIDS_M:
+        want = nq if tier == "quick" else nt
+        if want == 0:
+            continue
+        shp = f"{R}x{C}"
+        N = m["tallies"].get(f"c19:mN:{shp}", 0)
+        if N < want:
+            if not any(k.startswith("C19/output-not-a-spanning-tree") or k.startswith("C19/gen_wilson-raises") for k in m["viol_counts"]):
+                inconc.append(f"{shp}: only {N} of {want} marginal draws observed")
+            continue
+        slots, probs = edge_probabilities(R, C)
+        if abs(sum(probs) - (R * C - 1)) > 1e-6:
+            inconc.append(f"{shp}: effective resistances do not sum to n-1 ({sum(probs)})")
+            continue
+        worst = (0.0, None)
+        for i, p in enumerate(probs):
+            cnt = m["tallies"].get(f"c19:m:{shp}:{i}", 0)
+            var = N * p * (1 - p)
+            if var < 1e-9:
+                z = 0.0 if abs(cnt - N * p) < 0.5 else float("inf")
+            else:
+                z = (cnt - N * p) / var ** 0.5
+            if abs(z) > abs(worst[0]):
+                worst = (z, dict(edge=list(slots[i]), observed=cnt, expected=round(N * p, 1), p=round(p, 5)))
+        mstats[shp] = dict(draws=N, edges=len(probs), max_abs_z=round(abs(worst[0]), 3) if worst[0] != float("inf") else "inf", at=worst[1])
+        if abs(worst[0]) > Z_MAX:
+            viol.append(dict(mechanism="C19/edge-frequencies-not-uniform-spanning-tree", detail=f"{shp}: edge {worst[1]} is {worst[0]:.1f} standard deviations from the "
+                             f"inclusion probability of a uniform spanning tree (effective resistance) over {N} draws", case=dict(shape=shp, worst=worst[1])))
+    cov["edge_marginals"] = mstats
+    cov["edge_marginals_rule"] = f"per-edge inclusion count vs N*R_eff(edge), violation iff |z| > {Z_MAX} (normal tail 2.6e-12 per edge)"
     cov["tail_probability"] = TAIL
     trace = {k: v for k, v in m["tallies"].items() if k.startswith("c19:trace:")}
     cov["trace_layer"] = trace
     if trace.get("c19:trace:not-observed", 0) and not trace.get("c19:trace:held", 0):
         cov["trace_layer_status"] = "not observed (hook points absent); the statistical layer alone decides"
     # keep the evidence readable: drop the per-tree counters from the tallies
-    for key in [k for k in m["tallies"] if k.startswith("c19:n:")]:
+    for key in [k for k in m["tallies"] if k.startswith("c19:n:") or k.startswith("c19:m:")]:
         del m["tallies"][key]
     return dict(violations=viol, inconclusive=inconc, coverage=cov)
